@@ -404,6 +404,9 @@ func c19r3(c *an.Ctx) {
 		eff := ""
 		switch x := in.(type) {
 		case *ssa.Store:
+			if len(an.PathOf(x.Addr).Fields) == 0 {
+				return // a local (for instance the named result kept in memory because of a defer), not the signal's state
+			}
 			eff = "store " + an.PathOf(x.Addr).FieldString()
 		case *ssa.Call:
 			if _, ok := isAtomicStoreTo(in, status); ok {
